@@ -4,12 +4,31 @@ import UmDriver.Common
 namespace Um.Drv.Ttl
 open Um Um.Ttl
 
+def replyOf (t : String) : Option Reply :=
+  match t.splitOn ":" with
+  | ["i", h] => (bytesOfHex h).map Reply.integer
+  | ["b", h] => (bytesOfHex h).map Reply.bulk
+  | ["n"] => some .nil
+  | ["e"] => some .other
+  | ["s"] => some .other
+  | ["a"] => some .other
+  | _ => none
+
 def step (_ : Unit) (toks : List String) : Unit × String :=
   match toks with
   | ["ttl", h] =>
     match bytesOfHex h with
     | some b => ((), hexOfBytes (pttlToRestore b))
     | none => ((), "bad-op")
+  | ["sync", p, d] =>
+    -- the real UMSYNC push path: PTTL reply, DUMP reply → what reaches the destination
+    match replyOf p, replyOf d with
+    | some pr, some dr =>
+      ((), match scanTransfer pr dr with
+        | .skip => "skip"
+        | .restore ttl data => s!"restore {hexOfBytes ttl} {hexOfBytes data}"
+        | .error => "error")
+    | _, _ => ((), "bad-op")
   | _ => ((), "bad-op")
 
 def run : IO Unit := Um.Drv.loop () step
